@@ -42,3 +42,23 @@ Print Assumptions C06_reserved_user_identifier_marks.
 Theorem C06_temp_names_injective : forall c n m, temp_name c n = temp_name c m -> n = m.
 Proof. exact P_Local.temp_name_inj. Qed.
 Print Assumptions C06_temp_names_injective.
+
+(** ** Assigned before read, in the core semantics of C01 (coq/Sem.v): for every world, every configuration without bare-call
+    methods and with the plus operator, every source expression of the core language and every counter value, the outcome
+    of the rewritten expression and the history it leaves do not depend on what the temporaries held when it started --
+    every temporary it reads it has assigned before.  (That it writes only the temporaries it allocated is part of
+    C01_core_equivalence.) *)
+From IastRw Require Import Sem P_Sem.
+Theorem C06_core_assigned_before_read :
+  forall (respond : hist -> event -> resp) (ustore : hist -> string -> value)
+         (instr lit_ok awc : string -> bool) (e : expr),
+    (forall f, awc f = false) -> src e ->
+    forall c (h : hist) (t1 t2 : tenv),
+      let e' := fst (rw instr lit_ok awc true e c) in
+      fst (eval respond ustore e' (h, t1)) = fst (eval respond ustore e' (h, t2)) /\
+      fst (snd (eval respond ustore e' (h, t1))) = fst (snd (eval respond ustore e' (h, t2))).
+Proof.
+  intros respond ustore instr lit_ok awc e NA Hs.
+  exact (rw_ignores_initial_temporaries respond ustore instr lit_ok awc NA (plus_on:=true) eq_refl e Hs).
+Qed.
+Print Assumptions C06_core_assigned_before_read.
